@@ -37,7 +37,7 @@ def vm_crosscheck(ctx, histories, model):
     for h, scr in enumerate(histories):
         pre = []
         for l in scr:
-            if l.split(' ')[0] in ('RF', 'EN', 'DE', 'RC', 'RT', 'SNAP', 'REST', 'RFBAD', 'AP'): break
+            if l.split(' ')[0] in ('RF', 'EN', 'DE', 'RC', 'RT', 'SNAP', 'REST', 'RFBAD', 'AP', 'HINT'): break
             pre.append(l)
         if len(pre) >= 6: picked.append((h, pre))
         if len(picked) >= 4: break
@@ -63,6 +63,11 @@ def vm_crosscheck(ctx, histories, model):
 
 
 def ensure_builds(ctx, configs=('default',), optional=()):
+    if configs == ('default',):
+        # every history check also replays a tenth of its histories on the alternative build (p-256 + ML-KEM-768), which
+        # the test suite never compiles; optional: a tree on which that build does not compile is reported by C01/C02 only
+        configs, optional = ('default', 'alt'), ('alt',)
+        ctx.alt_histories = True
     ok = vf.build_harness(ctx, configs, optional)
     ok = vf.build_coq(ctx) and ok
     vf.forbidden_scan(ctx)
@@ -155,6 +160,8 @@ def run_profile(ctx, gen, n, config='default', claims=None, extra_oracle=None, t
         vf.violation(ctx, what, {'config': config, 'script': small, 'script_readable': hist.pretty(small), 'minimised_from': len(scr),
                                  'expected_by_spec': spec.predict(small), 'impl': [o.split('|')[0] for o in out], 'model': [o.split('|')[0] for o in mo],
                                  'violations_total': len(hits)})
+    if getattr(ctx, 'alt_histories', False) and config == 'default' and histories is None and not hits and not label and 'alt' not in getattr(ctx, 'unbuilt', ()):
+        run_profile(ctx, gen, max(40, n // 10), config='alt', claims=claims, extra_oracle=extra_oracle, trigger=trigger, label=f'{ctx.prop} on the alternative build', model_check=model_check)
     return H, impl, model, dis, hits
 
 
